@@ -1,0 +1,22 @@
+//go:build verif
+
+package stage
+
+import "github.com/arm-doe/sts"
+
+// Exports for the verification harness in /verif (build tag "verif" only).
+
+// VerifAddCompanionPart exposes addCompanionPart.
+func VerifAddCompanionPart(cmp *sts.Partial, beg, end int64) *sts.ByteRange {
+	return addCompanionPart(cmp, beg, end)
+}
+
+// VerifCompanionPartExists exposes companionPartExists.
+func VerifCompanionPartExists(cmp *sts.Partial, beg, end int64) bool {
+	return companionPartExists(cmp, beg, end)
+}
+
+// VerifIsCompanionComplete exposes isCompanionComplete.
+func VerifIsCompanionComplete(cmp *sts.Partial) bool {
+	return isCompanionComplete(cmp)
+}
